@@ -13,7 +13,7 @@ META = {
                    "final_subst: slots not covered by the pattern); H1 checks that both sides of a rule are instantiated from one "
                    "substitution and that the union is of exactly those two; H4 checks that b[x := t] replaces on equality of whole "
                    "invocations; H5 is a census of name-inventing constructors (only Slot::fresh may invent; numeric/named are confined "
-                   "to a frozen set of callers, each with its reason).",
+                   "to a frozen set of callers, each with its reason). H6-H10: fresh-filling renamings memoise per slot; b[x := t] gets its three parts from one substitution in order and both methods substitute in a term of b; pattern_subst returns only handles produced by the call itself (no memo read back from the e-graph) and every id-carrying field of EGraph/EClass is in the reviewed table of state the rebuild keeps canonical; a shape is renamed with caller-chosen names only after refresh_private; every completion of a slot map for an uncovered slot inserts Slot::fresh().",
     "not_decided": "meaning preservation in the model; conditional rules; both substitution methods as values",
     "assumptions": ["Slot::fresh returns globally new slots (C17)"],
 }
